@@ -33,6 +33,10 @@ class AnsiFormatter(Formatter):
             )
 
     def format(self, string, style=None):  # type: (str, Optional[Style]) -> str
+        if style is not None and not self._formatter.FULL_TAG_REGEX.search(string):
+            # Pastel returns a string without any tag as it is, ignoring the style stack
+            return StyleConverter.convert(style).apply(string.replace("\\<", "<"))
+
         if style is not None:
             self._formatter._style_stack.push(StyleConverter.convert(style))
 
